@@ -100,13 +100,14 @@ def run_killed(sim, c, what):
     return killed
 
 
-def recover(env, fn, combos):
+def recover(env, fn, combos, bk=None):
     """the documented recovery, by a fresh process"""
+    bk = bk or dict(batchsize=BS)
     try:
-        crop = cp.Crop(fn=fn, name="t", parent_dir=env.parent, batchsize=BS)
+        crop = cp.Crop(fn=fn, name="t", parent_dir=env.parent, **bk)
         need_sow = (not crop.is_prepared()) or crop.num_sown_batches != crop.num_batches
     except Exception:  # noqa  settings / function unreadable: sow again
-        crop = cp.Crop(fn=fn, name="t", parent_dir=env.parent, batchsize=BS, autoload=False)
+        crop = cp.Crop(fn=fn, name="t", parent_dir=env.parent, autoload=False, **bk)
         need_sow = True
     if need_sow:
         crop.sow_combos(combos, verbosity=0)
@@ -116,7 +117,9 @@ def recover(env, fn, combos):
     return crop.reap()
 
 
-def body_raw(E, phase, c, c2, rev, K, base, buf=False):
+def body_raw(E, phase, c, c2, rev, K, base, buf=False, nbm=False):
+    """nbm: the crop is sown by batch COUNT (num_batches=2 over 3 settings: sizes 2 and 1, a remainder)"""
+    bk = dict(num_batches=2) if cbool(nbm) else dict(batchsize=BS)
     phase = concretize(phase, 0, 4)
     K = concretize(K, 2, 3)
     c = concretize(c, 0, 40)
@@ -128,7 +131,7 @@ def body_raw(E, phase, c, c2, rev, K, base, buf=False):
         sim.rmtree_reverse(cbool(rev))
         sim.buffered(cbool(buf))
         ref = combo_runner(fn, combos, verbosity=0)
-        crop = cp.Crop(fn=fn, name="t", parent_dir=env.parent, batchsize=BS)
+        crop = cp.Crop(fn=fn, name="t", parent_dir=env.parent, **bk)
         if phase >= 1:
             crop.sow_combos(combos, verbosity=0)
         if phase in (1, 2):
@@ -138,7 +141,7 @@ def body_raw(E, phase, c, c2, rev, K, base, buf=False):
             cp.grow(2, crop=crop, verbosity=0)
         actions = {
             0: lambda: crop.sow_combos(combos, verbosity=0),
-            1: lambda: cp.Crop(fn=fn, name="t", parent_dir=env.parent, batchsize=BS).sow_combos(combos, verbosity=0),
+            1: lambda: cp.Crop(fn=fn, name="t", parent_dir=env.parent, **bk).sow_combos(combos, verbosity=0),
             2: lambda: cp.grow(2, crop=crop, verbosity=0),
             3: lambda: crop.grow_missing(),
             4: lambda: crop.reap(),
@@ -156,7 +159,7 @@ def body_raw(E, phase, c, c2, rev, K, base, buf=False):
         out = [None]
 
         def rec():
-            out[0] = recover(env, fn, combos)
+            out[0] = recover(env, fn, combos, bk)
 
         sim.new_process()
         if run_killed(sim, c2, rec):
@@ -343,6 +346,11 @@ CONDS = (
                        "steps (every c up to the length of the phase) of: " + "; ".join(
                            "%d %s" % (k, v) for k, v in PHASES.items() if k <= 4) +
                        "; then safety reap and recovery by fresh processes")
+    + split_conds(_G, "raw_nb", body_raw, "c:int c2:int rev:bool base:int buf:bool",
+                  ["0 <= c <= 22 and c2 == 40 and not rev and not buf"], "phase", [0, 1],
+                  fixed=dict(K=2, nbm=True), timeout=900,
+                  bounds="as raw phases 0 (sow) and 1 (re-sow), for a crop sown by batch count with a remainder "
+                         "(num_batches=2 over 3 settings): the recovery's re-sow of the prepared crop goes through")
     + split_conds(_G, "raw_second_crash", body_raw, "c:int c2:int rev:bool base:int buf:bool",
                   ["0 <= c <= 22 and 0 <= c2 <= 30"], "phase", [0, 2, 4], fixed=dict(K=2), timeout=3600,
                   tiers=("thorough",),
